@@ -224,13 +224,13 @@ Proof.
 Qed.
 
 (* handler: one cluster word *)
-Lemma env_scan_cluster bs tail r : bools_ok bs = true ->
+Lemma env_scan_cluster kp bs tail r : bools_ok bs = true ->
   (bs <> [] \/ exists f t, tail = f :: t /\ (f = 117 \/ f = 67)) ->
-  env_scan ((45 :: bs ++ tail) :: r) =
+  env_scan kp ((45 :: bs ++ tail) :: r) =
   match env_cluster tail with
-  | None => env_scan r
-  | Some (c, []) => match r with [] => HAsk | value :: r' => if N.eqb c 83 then HString (join [32] (value :: r')) else env_scan r' end
-  | Some (c, value) => if N.eqb c 83 then HString (join [32] (value :: r)) else env_scan r
+  | None => env_scan kp r
+  | Some (c, []) => match r with [] => HAsk | value :: r' => if N.eqb c 83 then HString (join [32] (value :: r')) else env_scan kp r' end
+  | Some (c, value) => if N.eqb c 83 then HString (join [32] (value :: r)) else env_scan kp r
   end.
 Proof.
   intros Hb H. destruct (body_head bs tail Hb H) as (x & body & E & Hx).
@@ -286,19 +286,19 @@ Proof.
   destruct H1.
 Qed.
 
-Lemma env_scan_long n r :
-  env_scan ((45 :: 45 :: n) :: r) =
-  (if is "--" (45 :: 45 :: n) then match r with [] => HAllow | _ => HWords [r] false end
+Lemma env_scan_long kp n r :
+  env_scan kp ((45 :: 45 :: n) :: r) =
+  (if is "--" (45 :: 45 :: n) then match r with [] => HAllow | _ => HWords [kp ++ r] false end
    else let '(name, v) := partition_eq n in
         match long_names ENV_LONG_OPTIONS name with
         | [nm] =>
             if mem_str nm ENV_LONG_WITH_ARG && is_none v then
               match r with
               | [] => HAsk
-              | value :: r' => if is "split-string" nm then HString (join [32] (value :: r')) else env_scan r'
+              | value :: r' => if is "split-string" nm then HString (join [32] (value :: r')) else env_scan kp r'
               end
             else if is "split-string" nm then HString (join [32] (oval v :: r))
-            else env_scan r
+            else env_scan kp r
         | _ => HAsk
         end).
 Proof. reflexivity. Qed.
@@ -306,11 +306,11 @@ Proof. reflexivity. Qed.
 Lemma resolved_nonempty n e : resolve_long n (longs env_spec) = Some e -> n <> [].
 Proof. intros H ->. vm_compute in H. discriminate. Qed.
 
-Lemma env_opts_handler opts : env_opts opts -> forall l, env_scan (opts ++ l) = env_scan l.
+Lemma env_opts_handler opts : env_opts opts -> forall kp l, env_scan kp (opts ++ l) = env_scan kp l.
 Proof.
   destruct env_tables_perm as [P ND].
   induction 1 as [|bs r Hn Hb _ IH|bs v r Hb Hv _ IH|bs v r Hb _ IH|bs v r Hb Hv _ IH|bs v r Hb Hv _ IH
-                  |n m k r He Hr Hm _ IH|n k v r He Hr Hv _ IH|n k v r He Hr _ IH|n k v r He Hr Hv _ IH|n k v r He Hr _ IH]; intro l.
+                  |n m k r He Hr Hm _ IH|n k v r He Hr Hv _ IH|n k v r He Hr _ IH|n k v r He Hr Hv _ IH|n k v r He Hr _ IH]; intros kp l.
   - reflexivity.
   - cbn [app]. rewrite <- (app_nil_r bs). rewrite env_scan_cluster by auto. apply IH.
   - cbn [app]. rewrite env_scan_cluster by (auto; right; eauto). apply IH.
@@ -419,7 +419,7 @@ Qed.
    every assignment list and every command, the handler delegates exactly what env executes *)
 Theorem env_extract_opts opts assigns c0 cs :
   env_opts opts -> forallb assign_word assigns = true -> dash c0 = false -> has_eq c0 = false ->
-  env_h (s2l "env" :: opts ++ assigns ++ c0 :: cs) = HWords [c0 :: cs] false /\
+  env_h (s2l "env" :: opts ++ assigns ++ c0 :: cs) = HWords [env_kept assigns ++ c0 :: cs] false /\
   env_exec (opts ++ assigns ++ c0 :: cs) = Some [c0 :: cs].
 Proof.
   intros Ho Ha Hd He. split.
